@@ -112,3 +112,67 @@ Example C02_nonvacuous :
   | None => False
   end.
 Proof. vm_compute. repeat split. Qed.
+
+From DesVerif Require Import Runtime.ModelCq Runtime.Compose Runtime.ComposeProps.
+
+(* ---------------------------------------------------------------------------
+   The same for the runtime over the CALENDAR QUEUE.  Runtime/ModelCq.v is the
+   runtime model threading the concrete queue state of des-cqueue (cq_new_at n t
+   start, add, peek_time, fetch_next, len) for the parameters n, t of
+   Builder::cqueue_options; Runtime/Compose.v proves by forward simulation
+   (queue part: the refinement relation of C01) that it prints exactly what the
+   model over the specification prints.  [run_gen_cq repaired] is what the
+   extracted runner executes in the differential check. *)
+Theorem C02_run_over_cqueue_eq_run_over_spec :
+  (forall input : list N, run_gen_cq repaired input = run_gen repaired input) /\
+  (forall (n t : N) (sc : script), n <> 0 -> t <> 0 -> crun_script repaired n t sc = run_script repaired sc).
+Proof. split; [exact run_over_cqueue_eq_run_over_spec|exact run_script_over_cqueue]. Qed.
+Print Assumptions C02_run_over_cqueue_eq_run_over_spec.
+
+(* C02 over the calendar queue, for every start time and every queue
+   parameterisation: in the booted state, every paused state and the final
+   state of every (stepped) run of every program
+     - the clock is at or after the start time and is the time of the last
+       handled event; S, now()@handler1, now()@handler2, ... never decreases;
+     - the calendar queue's own clock (CQueue::time) equals the reported time;
+     - every add_event so far was accepted iff its time was not before the
+       now() it was made at;
+     - the accepted adds are, as a multiset of (time, label), the handled events
+       (logged with now() = scheduled time) plus what fetch_next still drains;
+     - a further add_event(t) is accepted iff t >= now(), never moves the clock,
+       and when rejected leaves the queue untouched. *)
+Theorem C02_holds_over_cqueue :
+  forall (n t S B : N) (L : lim) (pre : list (N * N)) (P : prog) (ops : list sop) (c1 : rtc) (xs : list sout) (cf : rtc),
+  n <> 0 -> t <> 0 ->
+  cexec_sched repaired P (cboot n t S B L pre) ops = (Some c1, xs) ->
+  cdispatch_all repaired P c1 = Some cf ->
+  forall c, c = cboot n t S B L pre \/ c = c1 \/ c = cf ->
+  S <= cclock c /\
+  StronglySorted N.le (S :: map snd (clog c)) /\
+  cclock c = last (map snd (clog c)) S /\
+  CQueue.Model.tcur (cfes c) = cclock c /\
+  Forall (fun r => a_ok r = (a_now r <=? a_time r)) (cadds c) /\
+  Permutation (accepted (cadds c)) (handled (clog c) ++ cremaining (cfes c)) /\
+  (forall inh tm l, clast_ok (cadd_event inh c tm l) = (cclock c <=? tm) /\
+                    cclock (cadd_event inh c tm l) = cclock c /\
+                    (tm < cclock c -> cfes (cadd_event inh c tm l) = cfes c)).
+Proof.
+  intros n t S B L pre P ops c1 xs cf Hn Ht H1 H2 c Hc.
+  destruct (run_good_cq n t S B L pre P ops c1 xs cf Hn Ht H1 H2) as [G0 [G1 Gf]].
+  destruct Hc as [ -> | [ -> | -> ] ]; assumption.
+Qed.
+Print Assumptions C02_holds_over_cqueue.
+
+Theorem C02_run_total_cq : forall (n t : N) (sc : script), n <> 0 -> t <> 0 -> ~ In OFuel (crun_script repaired n t sc).
+Proof. exact run_total_cq. Qed.
+Print Assumptions C02_run_total_cq.
+
+Example C02_nonvacuous_cq :
+  let P := [[(0, 0, 1); (1, 3, 2)]] in
+  let c0 := cboot 7 3 10 5 LNone [(5, 0); (12, 7); (10, 0); (9, 0)] in
+  map a_ok (cadds c0) = [false; true; true; false] /\
+  match cdispatch_all repaired P c0 with
+  | Some cf => clog cf = [(0, 10); (1, 10); (7, 12)] /\ cclock cf = 12 /\ CQueue.Model.tcur (cfes cf) = 12
+  | None => False
+  end.
+Proof. vm_compute. repeat split. Qed.
